@@ -80,6 +80,19 @@ CHECKS = {
         "other than NameError/TypeError are not judged; BFS depth 4 (quick) / 5 (thorough).",
    technique="exhaustive bounded enumeration of expressions + explicit-state BFS of change histories on the implementation",
    ref="3/C16"),
+ "C08": dict(cat="model_checking",
+   text="Exhaustive enumeration of actuation requests (pulse/enable/timed_enable calls, control events with parameters, "
+        "coil_player, dual-wound coil, digital output) x a duration/power alphabet incl. zero, negative, fractional and "
+        "over-limit values x all 128 coils of the limit-configuration lattice, every command observed at the platform "
+        "driver interface judged against the coil's envelope and every out-of-limit request required to raise without "
+        "issuing a command; explicit-state BFS over pulse/enable/disable/timed-enable histories with pending software "
+        "timers (software-timed pulse off in time, max_hold_duration watchdog, nothing left on at rest); flipper and "
+        "autofire hardware rules incl. over-limit overwrites observed at set_*_rule; software flip.",
+   note="Trusted: virtual platform driver interface wrappers, Envelope reference in props/c08.py. Covers the actuation "
+        "paths that exist today; ball-device ejectors are exercised in C04/C05 machines only. BFS depth 6/7 on 8 "
+        "(quick, rotated by VERIF_SEED) / 128 (thorough) configurations.",
+   technique="exhaustive input enumeration + explicit-state BFS of histories on the implementation, envelope oracle at the driver interface",
+   ref="3/C08"),
 }
 NOT_YET = "check not built yet in this revision (planned, see DESIGN.md section 7)"
 
